@@ -40,7 +40,8 @@ POOL_SPECS = [
     {"c": "Mixed", "p": {"v": 1}, "o": ["code", 0, 0, 2],
              "k": {"child": {"c": "LeafA", "p": {"v": 1}}, "items": [
                  {"c": "LeafA", "p": {"v": 1}}, {"c": "LeafB", "p": {"v": 2}}, {"c": "SubLeafA", "p": {"v": 3, "extra": "ab"}},
-                 {"c": "Strs", "p": {"a": "a", "b": "abc"}}]}},
+                 {"c": "Strs", "p": {"a": "a", "b": "abc"}}, {"c": "Strs", "p": {"a": "a b", "b": "a  b", "ab": "x y"}},
+                 {"c": "Strs", "p": {"a": "a\tb", "b": "x  y", "ab": "x\t y"}}]}},
     {"c": "Uni", "k": {"one": {"c": "LeafA", "p": {"v": 0}}, "opt": None, "un": {"c": "LeafB", "p": {"v": 0}},
                        "ka": {"c": "LeafA", "p": {"v": 0}, "o": ["gen", 1]}, "kb": {"c": "LeafA", "p": {"v": 0}}}},
     {"c": "Seq", "k": {"items": [{"c": "Vals", "p": {"i": 10, "b": True}},
@@ -181,6 +182,14 @@ def check_text(data: dict, lab: Labels) -> None:
             # a string) must be treated on its own merits, whatever was compiled before
             k = data.get("blank_at", 0) % (len(text) + 1)
             variant = text[:k] + " " + text[k:] if data.get("blank_at", 0) % 2 else (text[:k] + text[k + 1:] if text[k:k + 1] == " " else text[:k] + " " + text[k:])
+            import re as _re
+
+            in_str = [m.start() for m in _re.finditer(r'(?<=[^"]) (?=[^"]*"(?:[^"]*"[^"]*")*[^"]*$)', text)]
+            if data.get("blank_at", 0) % 3 == 0 and in_str:
+                # a blank next to a blank *inside a quoted regex* (whitespace there is significant)
+                j = in_str[data.get("blank_at", 0) // 3 % len(in_str)]
+                variant = text[:j] + ("\t" if data.get("blank_at", 0) % 2 else " ") + text[j:]
+                lab.tag("blank-inside-string")
             okv, mv = compile_pattern(variant)
             behv = pattern_behaviour(mv, roots) if okv else None
             PM._MATCHER_CACHE.clear()
